@@ -40,6 +40,9 @@ func (d *drv) decodeCase(target string, doc any, removed []string, compare bool)
 	d.mu.Lock()
 	d.rep.Evaluations++
 	d.rep.Count("decode:" + target + ":" + o.Class)
+	if compare {
+		d.rep.Distinct("decode:" + target + ":" + string(body))
+	}
 	d.mu.Unlock()
 	if o.Class == "panic" || o.Class == "hang" {
 		d.fail("json.Unmarshal("+target+")", o, in)
@@ -74,6 +77,7 @@ func (d *drv) statusCase(status map[string]any, nonce uint64, removed []string) 
 	d.mu.Lock()
 	d.rep.Evaluations++
 	d.rep.Count("status:" + o.Class)
+	d.rep.Distinct("status:" + string(b))
 	d.mu.Unlock()
 	if o.Class == "panic" || o.Class == "hang" {
 		d.fail("ValidateCredentialStatus", o, in)
